@@ -415,7 +415,12 @@ fn gaussian_gen(c: &mut Case, offset: bool) {
     let forced = c.rng.below(d);
     for j in 0..d {
         if !integer && c.rng.bool(0.6) {
-            scale[j] = c.rng.logu(1e-3, 1e3);
+            // mostly moderate units; a fifth of the scaled features in very small or very large units
+            // ("real features" of any scale: the variances then sit far below / above 1)
+            scale[j] = if c.rng.bool(0.2) { if c.rng.bool(0.5) { c.rng.logu(1e-12, 1e-6) } else { c.rng.logu(1e4, 1e8) } } else { c.rng.logu(1e-3, 1e3) };
+            if scale[j] < 1e-3 || scale[j] > 1e3 {
+                c.bucket("gaussian:feature-in-extreme-units");
+            }
         }
         let ratio = if offset && (j == forced || c.rng.bool(0.5)) {
             c.rng.logu(1e3, 1e8) * if c.rng.bool(0.5) { 1.0 } else { -1.0 }
@@ -552,6 +557,11 @@ fn gaussian_gen(c: &mut Case, offset: bool) {
         }
         None => return,
     };
+    // the same prediction requested through the uniform api::Predictor trait (generic code path)
+    if let Some(Ok(tp)) = c.must("gaussian.predict(trait)", || scverif::trait_predict(&model, &qd)) {
+        let tp = tp;
+        c.check("gaussian.predictor-trait=predict", tp == preds, &sg, || format!("api::Predictor::predict returned {:?}, the inherent predict {:?}", tp, preds));
+    }
     if !stats_valid {
         c.bucket("map:skipped(non-finite reported statistics)");
         return;
@@ -700,6 +710,11 @@ fn multinomial_t<T: RealNumber + serde::Serialize>(c: &mut Case) {
         }
         None => return,
     };
+    // the same prediction requested through the uniform api::Predictor trait (generic code path)
+    if let Some(Ok(tp)) = c.must("multinomial.predict(trait)", || scverif::trait_predict(&model, &qd)) {
+        let tp = fv(&tp);
+        c.check("multinomial.predictor-trait=predict", tp == preds, &sg, || format!("api::Predictor::predict returned {:?}, the inherent predict {:?}", tp, preds));
+    }
     if !stats_valid {
         c.bucket("map:skipped(non-finite reported statistics)");
         return;
@@ -927,6 +942,11 @@ fn bernoulli_run<T: RealNumber + serde::Serialize>(c: &mut Case, inp: BernInput,
         }
         None => return,
     };
+    // the same prediction requested through the uniform api::Predictor trait (generic code path)
+    if let Some(Ok(tp)) = c.must("bernoulli.predict(trait)", || scverif::trait_predict(&model, &qd)) {
+        let tp = fv(&tp);
+        c.check("bernoulli.predictor-trait=predict", tp == preds, &sgb, || format!("api::Predictor::predict returned {:?}, the inherent predict {:?}", tp, preds));
+    }
     if !stats_valid {
         c.bucket("map:skipped(non-finite reported statistics)");
         return;
@@ -1145,6 +1165,11 @@ fn categorical_t<T: RealNumber + serde::Serialize>(c: &mut Case) {
         }
         None => return,
     };
+    // the same prediction requested through the uniform api::Predictor trait (generic code path)
+    if let Some(Ok(tp)) = c.must("categorical.predict(trait)", || scverif::trait_predict(&model, &qd)) {
+        let tp = fv(&tp);
+        c.check("categorical.predictor-trait=predict", tp == preds, &sg, || format!("api::Predictor::predict returned {:?}, the inherent predict {:?}", tp, preds));
+    }
     if !stats_valid {
         c.bucket("map:skipped(non-finite reported statistics)");
         return;
